@@ -10,7 +10,7 @@ from . import family
 
 TIERS = {
     "quick": dict(depth=2, sample=450, sim_num=80, sim_depth=4, stages=["simplified-logical", "fused"]),
-    "thorough": dict(depth=2, sample=None, sim_num=1500, sim_depth=5,
+    "thorough": dict(depth=2, sample=None, sim_num=240, sim_depth=4,
                      stages=["simplified-logical", "tuned-logical", "physical", "simplified-physical", "fused"]),
 }
 
